@@ -11,7 +11,7 @@ import tempfile
 HERE = os.path.dirname(os.path.abspath(__file__))
 ROOT = os.path.dirname(HERE)
 SEEDS = "/verif/seeded"
-KANI_NEEDED = {"C01b", "C03a", "C05a", "C17a"}
+KANI_NEEDED = {"C01b", "C03d", "C05a"}
 ids = sys.argv[1:] or sorted(os.listdir(SEEDS))
 wt = tempfile.mkdtemp(prefix="vp_sweep_")
 subprocess.run(["git", "-C", "/repo", "worktree", "add", "-q", "--detach", wt + "/repo", "HEAD"], check=True)
